@@ -54,6 +54,10 @@ func main() {
 			fmt.Println(err)
 			os.Exit(1)
 		}
+		if err := writeBaselineFields(w.Pkgs, filepath.Join(filepath.Dir(*wb), "baseline_fields.txt")); err != nil {
+			fmt.Println(err)
+			os.Exit(1)
+		}
 		w.AllFuncs()
 		theWorld = w
 		if err := writeBaselineSigs(w, filepath.Join(filepath.Dir(*wb), "baseline_sigs.json")); err != nil {
